@@ -18,6 +18,23 @@ type Edit struct {
 type EditOpts struct {
 	AllowRevert bool
 	History     []*Repo // earlier states, for revert steps
+	// AllowBreak lets a step make one command fail *after* it has written its outputs ("break-late");
+	// the step after a broken state always repairs it and re-salts the command ("fix-resalt"), so that
+	// the repaired build runs where a failed attempt has left files behind.
+	AllowBreak bool
+	// PreferToolSrc makes every fifth edit a content edit of a source file of a tool target (same length,
+	// same leading bytes), which an absorbing tool turns into byte-identical output.
+	PreferToolSrc bool
+}
+
+// Broken returns the target whose command has been made to fail by a break-late edit, if any.
+func (r *Repo) Broken() *Target {
+	for _, t := range r.Targets {
+		if t.Fail == "late-exit1" {
+			return t
+		}
+	}
+	return nil
 }
 
 func (r *Repo) genrules() []*Target {
@@ -53,6 +70,43 @@ func (r *Repo) dependents(label string) []*Target {
 // ApplyRandomEdit returns a new state derived from r by one random edit, and its description.
 // The result is always a valid, buildable repository.
 func ApplyRandomEdit(rng *rand.Rand, r *Repo, o EditOpts) (*Repo, Edit) {
+	if r.Broken() != nil {
+		n := r.Clone()
+		t := n.Broken()
+		t.Fail = ""
+		t.Salt = fmt.Sprintf("s%d", rng.Intn(1000))
+		return n, Edit{"fix-resalt", t.Label()}
+	}
+	if o.AllowBreak && rng.Intn(7) == 0 {
+		n := r.Clone()
+		for _, t := range shuffled(rng, n.genrules()) {
+			if !t.IsTool && (t.ExtraDir || t.PostBuild || t.DirOut != "") {
+				t.Fail = "late-exit1"
+				return n, Edit{"break-late", t.Label()}
+			}
+		}
+	}
+	if o.PreferToolSrc && rng.Intn(5) == 0 {
+		n := r.Clone()
+		for _, t := range shuffled(rng, n.genrules()) {
+			if !t.IsTool || len(t.SrcFiles) == 0 || strings.HasSuffix(t.SrcFiles[0], "/") {
+				continue
+			}
+			p := filepath.Join(t.Pkg, t.SrcFiles[0])
+			old := n.Files[p]
+			if len(old) == 0 {
+				continue
+			}
+			// flip the last byte between two digits/letters: same length, same first bytes, same name
+			last := old[len(old)-1]
+			repl := byte('1')
+			if last == '1' {
+				repl = '2'
+			}
+			n.Files[p] = old[:len(old)-1] + string(repl)
+			return n, Edit{"tool-src-content", p}
+		}
+	}
 	for attempt := 0; attempt < 50; attempt++ {
 		n := r.Clone()
 		if e, ok := tryEdit(rng, n, o); ok && n.Valid() {
